@@ -995,7 +995,7 @@ class AI(object):
         if ck in ('IntegralCast', 'IntegralToBoolean', 'PointerToBoolean', 'BooleanToSignedIntegral'):
             out = []
             for (v, s) in self.eval(sub, st, u):
-                out.append((self._intcast(e, v, dtype(e), s, ck, False), s))
+                out.append((self._intcast(e, v, dtype(e), s, ck, bool(e.get('isPartOfExplicitCast'))), s))
             return out
         if ck == 'UserDefinedConversion':
             return [(self.top_of(dtype(e)), s) for (_, s) in self.eval(sub, st, u)]
